@@ -5,5 +5,6 @@ CONSTANTS
   Ops = {150}
   Shared = {2}
   MixNames = {"create", "log", "balanced"}
+  Closers = {}
 INVARIANT Emit
 CHECK_DEADLOCK FALSE
